@@ -20,7 +20,7 @@ func init() {
 			"(4) length fits — uint16(len(data)) is dominated by len(data) <= MaxRecordSize and MaxRecordSize <= 65535; (5) CRC — every success exit of readRecord is dominated by the CRC comparison, computed over the payload on both sides; " +
 			"(6) file order — FindWALFiles sorts; ReplayWALDir and GetEntriesFrom visit files ascending with the current file last; getEntriesFromFile keeps entries with sequence >= the requested one; (7) the buffered writer is never replaced unflushed.",
 		NotDecided: "equality of replayed and appended sequences for all inputs (the layout agreement plus CRC is its structural part); behaviour with non-monotone sequence numbers.",
-		Rules:      []func(*Ctx, *Reporter){ruleWalHeaderCodec, ruleWalPayloadCodec, ruleWalFragmentation, ruleWalLengthFits, ruleWalCRC, ruleWalFileOrder, ruleWalNoBufferDrop},
+		Rules:      []func(*Ctx, *Reporter){ruleWalHeaderCodec, ruleWalPayloadCodec, ruleWalFragmentation, ruleWalLengthFits, ruleWalCRC, ruleWalFileOrder, ruleWalNoBufferDrop, ruleWalRouteBySize, ruleNoFabrication},
 	})
 }
 
@@ -540,5 +540,108 @@ func ruleWalNoBufferDrop(c *Ctx, r *Reporter) {
 			r.Rule("no-buffer-drop", 2)
 			r.add(o.Status, o.Construct, o.Pos, o.Detail, o.Path)
 		}
+	}
+}
+
+// ruleWalRouteBySize: Append decides between one record and fragmentation by comparing a size with MaxRecordSize; that size
+// must be the payload size writeRecord actually builds (same guarded linear form after substituting the call's arguments).
+// A different formula routes an entry that fits one record to the fragment writer (or the reverse), whose chunking assumes
+// more than one record of data.
+func ruleWalRouteBySize(c *Ctx, r *Reporter) {
+	r.Rule("route-by-the-record-size", 1)
+	a := getWalAnchors(c, r)
+	if !a.ok || a.writeFrag == nil {
+		return
+	}
+	maxRec := c.Const("pkg/wal", "MaxRecordSize")
+	if maxRec == nil {
+		r.Unresolved("wal.MaxRecordSize", "not found")
+		return
+	}
+	maxV, _ := constant.Int64Val(maxRec.Val())
+	var payloadLen ssa.Value
+	AllInstrs(a.writeRecord, false, func(_ *ssa.Function, ins ssa.Instruction) {
+		if mk, ok := ins.(*ssa.MakeSlice); ok {
+			if _, isK := mk.Len.(*ssa.Const); !isK {
+				payloadLen = mk.Len
+			}
+		}
+	})
+	if payloadLen == nil {
+		r.Undecided("wal.WAL.writeRecord:payload-size", c.FnPos(a.writeRecord), "payload allocation not found")
+		return
+	}
+	n := 0
+	for _, fn := range a.appendFns {
+		var wr, wf *ssa.Call
+		AllInstrs(fn, false, func(_ *ssa.Function, ins ssa.Instruction) {
+			if call, ok := ins.(*ssa.Call); ok {
+				switch call.Call.StaticCallee() {
+				case a.writeRecord:
+					wr = call
+				case a.writeFrag:
+					wf = call
+				}
+			}
+		})
+		if wr == nil || wf == nil {
+			continue
+		}
+		n++
+		name := FnName(fn) + ":routing"
+		// the branch that separates them
+		var cond *ssa.BinOp
+		for _, b := range fn.Blocks {
+			if len(b.Instrs) == 0 {
+				continue
+			}
+			iff, ok := b.Instrs[len(b.Instrs)-1].(*ssa.If)
+			if !ok {
+				continue
+			}
+			bo, ok := iff.Cond.(*ssa.BinOp)
+			if !ok {
+				continue
+			}
+			sep := (edgeDominates(b, 0, wr.Block()) && edgeDominates(b, 1, wf.Block())) || (edgeDominates(b, 1, wr.Block()) && edgeDominates(b, 0, wf.Block()))
+			if !sep {
+				continue
+			}
+			kx, isKx := constInt(bo.X)
+			ky, isKy := constInt(bo.Y)
+			if (isKx && kx == maxV) || (isKy && ky == maxV) {
+				cond = bo
+			}
+		}
+		if cond == nil {
+			r.Undecided(name, c.FnPos(fn), "the branch that chooses between writeRecord and writeFragmentedRecord by comparing a size with MaxRecordSize was not found")
+			continue
+		}
+		size := cond.X
+		if _, isK := constInt(size); isK {
+			size = cond.Y
+		}
+		// single record iff size <= Max
+		singleOnTrue := edgeDominates(cond.Block(), 0, wr.Block())
+		op := cond.Op
+		if _, isK := constInt(cond.X); isK {
+			op = flipOp(op)
+		}
+		okOp := (singleOnTrue && op == token.LEQ) || (!singleOnTrue && op == token.GTR)
+		var lx LinX
+		sub := map[string]string{}
+		for i, p := range a.writeRecord.Params {
+			if i < len(wr.Call.Args) {
+				sub["param:"+p.Name()] = Path(wr.Call.Args[i])
+			}
+		}
+		want := lx.Lin(payloadLen).Subst(sub)
+		got := lx.Lin(size)
+		r.Check(okOp && normLin(got.String()) == normLin(want.String()), name, c.InsPos(cond),
+			"one record iff "+want.String()+" <= MaxRecordSize — the payload size writeRecord builds",
+			"the size that decides between one record and fragmentation is "+got.String()+" ("+cond.Op.String()+" MaxRecordSize), but writeRecord's payload is "+want.String()+": an entry that fits one record is handed to the fragment writer (which then emits a FIRST fragment without a LAST one and the entry never completes at replay), or an oversized one to writeRecord")
+	}
+	if n == 0 {
+		r.Undecided("wal.Append*:routing", "", "no Append entry point calls both writeRecord and writeFragmentedRecord")
 	}
 }
